@@ -570,7 +570,7 @@ def main():
                     to_min.append((i, sig, what, var))
         # minimise, confirm, classify
         done_sigs = set()
-        for k, (i, sig, what, var) in enumerate(to_min):
+        for k, (i, sig, what, var) in enumerate(to_min[:12]):
             case = gen_case(args.seed, i)
             wd = os.path.join(batch, "min%d" % k)
             if k < 4:
